@@ -297,6 +297,9 @@ FIDELITY = {
     'V1': {'replay_cmd': ['fidelity-v1', '3'], 'bin_args': ['3']},
     'V5': {'replay_cmd': ['fidelity-v5'], 'bin_args': []},
     'V6': {'replay_cmd': ['fidelity-v6'], 'bin_args': []},
+    # V10: the real parser supplies (document, span, message) of each error; the extracted
+    # renderer reads them from a cases file
+    'V10': {'replay_cmd': ['fidelity-v10'], 'bin_args': ['@CASES@'], 'cases_cmd': ['fidelity-v10-cases']},
 }
 
 
@@ -323,9 +326,17 @@ def run_fidelity(unit, gen, outdir, log=print):
     rc, out, err, wall, to = sh(['verus', gen, '--compile', '--no-verify', '-o', binp], 600, cwd=outdir)
     if rc != 0 or not os.path.exists(binp):
         return {'match': False, 'error': 'verus --compile failed: ' + err[-1500:]}
-    rc1, out1, err1, _, _ = sh([binp] + cfg['bin_args'], 600)
     if not build_replay(log):
         return {'match': False, 'error': 'replay crate did not build'}
+    bin_args = list(cfg['bin_args'])
+    if 'cases_cmd' in cfg:
+        rc0, out0, err0, _, _ = sh([replay_bin()] + cfg['cases_cmd'], 600)
+        if rc0 != 0 or not out0.strip():
+            return {'match': False, 'error': 'replay produced no cases: ' + err0[-500:]}
+        cases = os.path.join(outdir, unit + '.cases')
+        open(cases, 'w').write(out0)
+        bin_args = [cases if a == '@CASES@' else a for a in bin_args]
+    rc1, out1, err1, _, _ = sh([binp] + bin_args, 600)
     rc2, out2, err2, _, _ = sh([replay_bin()] + cfg['replay_cmd'], 600)
     same = (rc1 == 0 and rc2 == 0 and out1 == out2)
     return {'match': same, 'extracted_digest': out1.strip().split('\n'), 'real_digest': out2.strip().split('\n'),
